@@ -20,7 +20,7 @@ CONSTANTS
   Points <- HistPoints
   SpanChoice <- HistSpans
   SubsetCats = {0, 2}
-  Ops = {"Subset", "Union", "Update", "Copy", "Pickle", "Json", "WriteLoad"}
+  Ops = {"Subset", "Union", "Update", "Copy", "Pickle", "Json", "WriteLoad", "QueryList", "CountDistinct", "Describe"}
   Others <- OthersMixed
   UpdateSeqids = {{}, {"s1"}, {"s1", "s2"}}
 INVARIANT TypeOK
